@@ -7,7 +7,7 @@ run_one() {
   git -C /repo worktree add -q --detach "$WT" HEAD 2>/dev/null || { echo -e "$B\t$ID\tworktree-failed"; return; }
   if ! ( cd "$WT" && git apply "$P" 2>/dev/null ); then git -C /repo worktree remove --force "$WT"; echo -e "$B\t$ID\tpatch-does-not-apply"; return; fi
   FAILS=$(cd "$WT" && /venv/bin/python -m pytest -q -p no:cacheprovider --timeout=900 -x --deselect chempy/tests/test_solution.py --deselect chempy/tests/test_units.py::test_to_unitless__sympy 2>&1 | tail -1)
-  case "$FAILS" in *failed*) SUITE="suite-FAILS";; *passed*) SUITE="suite-passes";; *) SUITE="suite-?";; esac
+  if echo "$FAILS" | grep -qE "(^| )[0-9]+ failed"; then SUITE="suite-FAILS"; elif echo "$FAILS" | grep -q passed; then SUITE="suite-passes"; else SUITE="suite-?"; fi
   RES=$(cd /verif && VERIF_REPO="$WT" VERIF_NO_EVIDENCE=1 ./check "$ID" --tier quick 2>&1 | grep -E "^(VIOLATION|== C)" | tail -2 | tr '\n' ' ' | cut -c1-200)
   case "$RES" in *VIOLATION*) V="CAUGHT";; *"errors=0"*) V="missed";; *) V="harness-error";; esac
   git -C /repo worktree remove --force "$WT"
